@@ -307,6 +307,9 @@ func solveAll(w *World, obls []*Obligation, timeoutS, seed int) {
 			if o.Expect == "sat" && t > 3 {
 				t = 3
 			}
+			if o.Clause != nil && o.Clause.Withdrawn && t > 5 {
+				t = 5 // recorded finding: expected to fail
+			}
 			r := solve(o.Name, q, o.Values, t, seed, "")
 			if o.Expect == "unsat" && (r.Status == "unknown" || r.Status == "timeout") && len(w.splits) > 0 && len(w.splits) <= 4 {
 				// exhaustive case split on the contract's split conditions
